@@ -1,6 +1,8 @@
 import MpireModel.Model.Watch
 import MpireModel.Model.Worker
 import MpireModel.Proofs.Watch
+import MpireModel.Model.KillSignal
+import MpireModel.Proofs.KillSignal
 /-!
 # C08 — timeouts fire iff exceeded, and promptly (watch logic over a discrete clock; real signal latency not modelled)
 -/
@@ -32,6 +34,29 @@ theorem timeout_detected (es : List TEv) (s : TSt) (h : trun {} es = some s) (t 
 independent of how long the function would block and of how many workers block). -/
 theorem scan_latency (P x : Nat) (hP : 0 < P) : ∃ k, x ≤ k * P ∧ k * P < x + P :=
   Mpire.Proofs.Watch.scan_latency P x hP
+
+/-! ### Interrupting the overrunning function(s): the running-task hand-shake -/
+
+/-- The interrupting signal is only ever handled inside the protected region of `_run_safely` — it never escapes into
+the worker loop — for every interleaving of the worker entering/leaving user functions with kill attempts. -/
+theorem kill_signal_never_escapes (w : Mpire.Kill.W) (h : Mpire.Kill.Reachable w) : w.phase ≠ .escaped :=
+  Mpire.Proofs.Kill.never_escapes w h
+
+/-- At most one signal per execution of a user function ("a signal should only be sent once"). -/
+theorem at_most_one_signal_per_run (w : Mpire.Kill.W) (h : Mpire.Kill.Reachable w) : w.sent ≤ 1 :=
+  Mpire.Proofs.Kill.at_most_one_signal_per_run w h
+
+/-- **The pool-wide kill reaches every worker**: after one round of locked test-and-signal over all workers (what
+terminate() does) and delivery, no worker is inside a user function any more — however many were blocked and however
+long they would have blocked. -/
+theorem pool_kill_reaches_all (ws : List Mpire.Kill.W) (h : ∀ w ∈ ws, Mpire.Kill.Reachable w) :
+    ∀ w ∈ Mpire.Kill.deliverAll (Mpire.Kill.killAll ws), w.phase ≠ .inside ∧ w.phase ≠ .leaving ∧ w.phase ≠ .escaped :=
+  Mpire.Proofs.Kill.kill_round_reaches_all ws h
+
+/-- A worker blocked in a user function is stopped by one kill attempt. -/
+theorem blocked_worker_is_stopped (w : Mpire.Kill.W) (h : Mpire.Kill.Reachable w) (hi : w.phase = .inside) (hr : w.running = true) :
+    ((Mpire.Kill.step w .tryKill).bind fun w1 => Mpire.Kill.step w1 .deliver).map (·.phase) = some .stopped :=
+  Mpire.Proofs.Kill.blocked_worker_is_stopped w h hi hr
 
 example : timedOut (some 10) 12 3 = false ∧ timedOut (some 10) 13 3 = true := by decide
 
